@@ -175,29 +175,34 @@ func TestC07MakerFundsNeverAbandoned(t *testing.T) {
 			}
 		}
 		h.run(acts)
-		// closure: CSV matures while the invoice stays unpaid
-		if !h.stop {
-			closureSilentPeer(h, 4)
-			h.afterStep()
-		}
-		if !h.stop {
-			for _, n := range h.nodes() {
-				for _, o := range n.Openings {
-					rec := recForOpening(n, o)
-					if invoicePaid(h, rec) || outpointSpentByNode(h, n, o) {
-						continue
-					}
-					st := "?"
-					if rec != nil {
-						st = string(rec.Current)
-					}
-					h.stop = col.Violation(h.T, "C07/"+causeOf(h, n, o)+"/not-refunded-after-csv:"+strings.TrimPrefix(st, "State_"),
-						"after the csv matured (invoice unpaid, services healthy, restarts) opening output %s:%d of %s is still unspent; swap state %s\n%s", o.TxID[:8], o.Vout, n.Name, st, h.dump())
-					break
-				}
-			}
-		}
+		finalC07(h, col)
 		nt := h.Classes["opening-broadcast"]
 		col.Case(h.Key(), nt, h.Ops, h.classList()...)
 	})
+}
+
+// finalC07: closure (CSV matures while the invoice stays unpaid, services healthy, restarts), then every
+// opening output the node broadcast must be spent by the node unless the claim invoice was paid.
+func finalC07(h *Hist, col *stats.Collector) {
+	if !h.stop {
+		closureSilentPeer(h, 4)
+		h.afterStep()
+	}
+	if !h.stop {
+		for _, n := range h.nodes() {
+			for _, o := range n.Openings {
+				rec := recForOpening(n, o)
+				if invoicePaid(h, rec) || outpointSpentByNode(h, n, o) {
+					continue
+				}
+				st := "?"
+				if rec != nil {
+					st = string(rec.Current)
+				}
+				h.stop = col.Violation(h.T, "C07/"+causeOf(h, n, o)+"/not-refunded-after-csv:"+strings.TrimPrefix(st, "State_"),
+					"after the csv matured (invoice unpaid, services healthy, restarts) opening output %s:%d of %s is still unspent; swap state %s\n%s", o.TxID[:8], o.Vout, n.Name, st, h.dump())
+				break
+			}
+		}
+	}
 }
